@@ -153,3 +153,27 @@ func itemWitness(it *pgen.TItem) map[string]any {
 func topIsCustom(t *pgen.Type) bool {
 	return t.K == pgen.KNamed && (t.EqualMethod == "custom" || t.CompareMethod == "custom")
 }
+
+// buildTypeBatchesMulti is buildTypeBatches with several items (op sets) per shape.
+func (c *Ctx) buildTypeBatchesMulti(sel shapeSel, opSets func(t *pgen.Type) [][]string) []TypeBatch {
+	sel.Forms = []string{"top"}
+	sel.Ops = func(t *pgen.Type, form string) []string { return []string{"x"} }
+	batches := c.buildTypeBatches(sel)
+	for bi := range batches {
+		var items []pgen.TItem
+		for _, it := range batches[bi].Items {
+			for k, ops := range opSets(it.T) {
+				if len(ops) == 0 {
+					continue
+				}
+				n := it
+				n.ID = fmt.Sprintf("%s%c", it.ID, 'a'+k)
+				n.Ops = append([]string{}, ops...)
+				n.Tags = append(append([]string{}, it.Tags...), "helper:"+ops[len(ops)-1])
+				items = append(items, n)
+			}
+		}
+		batches[bi].Items = items
+	}
+	return batches
+}
